@@ -29,6 +29,12 @@ func init() {
 		Rule: "per run the tape draws algorithm, Max, Expiration, MaxFunc mode, key count, skip options, storage backend, preemption rate, " +
 			"2-6 clients x 1-8 timed requests; distinct = different hash of (configuration, per-key sequence of admitted/rejected outcomes with their window resets); " +
 			"non-trivial = at least one request was rejected or at least two requests overlapped in the middleware",
+		Assumptions: []string{
+			"interleavings are explored at the granularity of synchronisation operations, coarse-clock reads, storage calls and handler boundaries (sequentially consistent executions)",
+			"the sequential model of DESIGN.md A.1 is the meaning of the documented algorithms; only admission, Retry-After and MaxFunc are compared (X-RateLimit-Remaining/-Reset of admitted requests are not part of the statement)",
+			"storages expire entries on the coarse clock like the in-repo storages; storage errors are not injected for this property",
+			"porcupine timeouts (30 s) are counted as unknown, never reported",
+		},
 		Components: map[string]string{
 			"limiter middleware, manager, msgp codec": "real",
 			"internal/memory storage + its GC":        "real (instrumented)",
